@@ -60,6 +60,13 @@ def check_case(ctx, c):
     # exact expectation values from the simulator = quadratic form (basis states: sum of coefficient*eigenvalue)
     nonempty = [(t, a) for t, a in zip(tasks, c["tasks"]) if a["op"]]
     if nonempty:
+        # the simulator has a history: the very circuit objects of the tasks were just simulated from OTHER initial states
+        for t, _ in nonempty[:2]:
+            d_ = 2**t.circuit.n_qubits
+            if d_ > 1:
+                psi = np.zeros(d_, dtype=complex)
+                psi[d_ - 1] = 1.0
+                sim.get_wavefunction(t.circuit, initial_state=psi)
         ex = calculate_exact_expectation_values(sim, [t for t, _ in nonempty])
         for (t, a), e in zip(nonempty, ex):
             want = sum(tm_["c"] * (-1) ** len(set(tm_["sup"]) & set(a["ones"])) for tm_ in a["op"])
